@@ -4,7 +4,9 @@ Real code driven (from /repo/src): every constructor of highdicom.sr.value_types
 (15 value types), the value accessors, X.from_dataset on a plain Dataset copy,
 ContentSequence.from_sequence (class dispatch), both also after dcmwrite +
 dcmread of the bare dataset; sr.coding.CodedConcept (constructor, accessors,
-from_dataset); the SCOORD / SCOORD3D graphic-data validation.
+from_dataset); the SCOORD / SCOORD3D graphic-data validation incl. degenerate
+contours; spatial.are_points_coplanar directly; histories of value reads /
+in-place changes by the caller / GraphicData edits on one SCOORD(3D) item.
 Model: coq/theories/C13_Model.v; theorems: C13_Props.v.
 """
 import copy
@@ -28,7 +30,10 @@ ORACLE_PREMISES = [
     '(DS <= 16 chars, FL float32, FD float64, IS/UL/US ranges, text without trailing blanks); '
     'string/byte encoding of single values is not modelled',
     'are_points_coplanar (SVD, tolerance 1e-5) agrees with the exact rank condition on the generated '
-    'point sets (exactly coplanar dyadic points, or deviation >= 1/8)',
+    'point sets (exactly coplanar dyadic points, or largest distance from the least-squares plane >= 1e-3; '
+    'the oracle does not judge inputs in between)',
+    'aliasing is outside the model: that arrays handed out by .value / handed to the constructors are not shared '
+    'with the item is tied to the real objects by the history stratum only (model: HScribble is a no-op)',
     'pydicom DA/TM/DT objects carry the datetime fields they were built from',
 ]
 MODELLED = ('sr/value_types.py: the 15 constructors (attribute writing + validation), value accessors, '
@@ -41,9 +46,13 @@ MODELLED = ('sr/value_types.py: the 15 constructors (attribute writing + validat
             'three kinds of sequence; ContentSequence.append/insert/extend/+=/__setitem__/__delitem__ (int and '
             'slice)/find/get_nodes/index/__contains__ with the name look-up table; from_dataset of the 12 template '
             'content items of sr/content.py (whether each asserts the value type is read off the source); the '
-            'len(str(value)) <= 16 rule of NumContentItem for ints and exact representability as a double.')
-STRATA = ['tree', 'code', 'code_from', 'scoord', 'scoord3d', 'malformed', 'seqmode', 'seqops', 'subclass', 'num_int']
-NOT_EXECUTED = ['near-tolerance coplanarity (deviation between 1e-7 and 1e-3)',
+            'len(str(value)) <= 16 rule of NumContentItem for ints and exact representability as a double; '
+            'histories of reads of ScoordContentItem.value / Scoord3DContentItem.value (a fresh array per access, a copy '
+            'stored by the constructor: in-place changes of arrays handed out or handed in do not reach the item, edits '
+            'and re-assignment of GraphicData do); spatial.are_points_coplanar driven directly.')
+STRATA = ['tree', 'code', 'code_from', 'scoord', 'scoord3d', 'malformed', 'seqmode', 'seqops', 'subclass', 'num_int',
+          'falsy', 'history', 'coplanar']
+NOT_EXECUTED = ['near-tolerance coplanarity (deviation from the least-squares plane between 1e-7 and 1e-3: not judged)',
                 'non-ASCII text (model strings are ASCII)',
                 'sr/content.py: constructors and accessors of the template content items, VolumeSurface / '
                 'ReferencedSegment / ReferencedSegmentationFrame (only the from_dataset of the 12 item classes is driven)',
@@ -56,13 +65,25 @@ RULE = ('tree: random content trees of depth <= 4 over all 15 value types (codes
         'datasets with 0/1/2 code value attributes or missing meaning/designator; scoord / scoord3d: every '
         'graphic type x point count 0..8 x wrong dimension x open/closed x coplanar/non-coplanar; '
         'malformed: one guard violated per dataset (attribute deleted at any depth, value type swapped or '
-        'unknown, wrong class, relationship deleted/invalid, emptied sequences, odd graphic data), and datasets '
+        'unknown, wrong class, relationship deleted/invalid, emptied sequences, odd graphic data; ALL 15 x 14 pairs '
+        '(class, other value type) both as a foreign dataset and as a relabelled own dataset), and datasets '
         'with 2-3 such faults in different nodes (error precedence); seqmode: 0-3 items x {root, SR, context, '
         'invalid flag pair} through ContentSequence(...) and from_sequence(...); seqops: a content sequence '
         'mutated by 1-8 random append/insert/extend/+=/set/del (int + slice, indices around both ends) calls, '
         'then find per name, get_nodes, index, in; subclass: the 12 template content items of sr/content.py x datasets '
         'of the parent / another value type x one required attribute, Value Type or name deleted; num_int: ints '
-        'around 10^15, 10^16, 2^53 and random 14-20 digit ints (exact decimal string stored? value returned?). '
+        'around 10^15, 10^16, 2^53 and random 14-20 digit ints (exact decimal string stored? value returned?); '
+        'falsy: every value type at the values Python / pydicom treat as "nothing" (a single time offset / sample '
+        'position of 0, 0.0, -0.0, zeros at each position of longer lists, NUM 0 / 0.0 / -0.0, empty text, midnight, '
+        'bare-int frame numbers, absent optional parts) through the full tree path; history: one SCOORD / SCOORD3D item '
+        '(constructed / from_dataset of a plain or byte round-tripped copy / from_sequence) x 3-8 calls out of {read '
+        'value, change in place an array returned earlier | the constructor argument | the source dataset (+=, *=, '
+        '[:]=0, round(out=), reverse, fill), GraphicData[i] = x with i around both ends, GraphicData = list, value of '
+        'the serialised-and-parsed copy read / scribbled on / read again}; every read must show the GraphicData of '
+        'that moment; scoord3d also: closed contours of 6-9 points that START (or end, or - rotated - continue) with '
+        'three collinear or repeated vertices with and without a later vertex lifted out of the plane, the lifted vertex '
+        'at every position, all points on a line / identical; coplanar: are_points_coplanar itself on 0-9 points of '
+        'the same families, unclosed, permuted, and on n x 2 input. '
         'non-trivial = tree with >= 2 nodes or a rejected input; distinct by case hash')
 
 VTS = ['CODE', 'COMPOSITE', 'CONTAINER', 'DATE', 'DATETIME', 'IMAGE', 'NUM', 'PNAME', 'SCOORD',
@@ -281,9 +302,9 @@ def g_value(rng, t, allow_big):
         w = rng.choice(['samples', 'offsets', 'datetimes'])
         n = rng.choice([1, 1, 2, 3, 5])
         if w == 'samples':
-            l = [rng.choice([1, 2**31, 2**32 - 1, rng.randint(1, 10**6)]) for _ in range(n)]
-        elif w == 'offsets':
-            l = [_q8(rng, 0, 10**6) for _ in range(n)]
+            l = [rng.choice([1, 2**31, 2**32 - 1, rng.randint(1, 10**6), 0]) for _ in range(n)]
+        elif w == 'offsets':      # 0 s = the start of the acquisition (a scalar 0.0 is falsy)
+            l = [rng.choice([_q8(rng, 0, 10**6), _q8(rng, 0, 10**6), 0.0, -0.0, 0, _q8(rng, -64, 64)]) for _ in range(n)]
         else:
             l = [g_datetime(rng) for _ in range(n)]
         return {'trt': rng.choice(list(TRT)), 'w': w, 'l': l}
@@ -518,6 +539,140 @@ def _sub_ds(c):
         del ds[c['del']]
     return ds
 
+# ---- values that Python / pydicom treat as "nothing" ------------------------------------------------------------
+def g_falsy(rng):
+    """one item per value type and 'nothing-like' value: a scalar 0 / 0.0 / -0.0 (pydicom collapses a one-element
+    list into a scalar, which is falsy), zeros inside longer lists, empty text, midnight, absent optional parts"""
+    out = []
+
+    def item(t, val):
+        out.append({'kind': 'falsy', 'tree': {'t': t, 'name': g_code(rng), 'rel': rng.choice(RELS), 'val': val, 'kids': []}})
+
+    def trt(l):
+        return 'POINT' if len(l) == 1 else rng.choice(['MULTIPOINT', 'SEGMENT', 'MULTISEGMENT', 'BEGIN', 'END'])
+    for l in ([0.0], [-0.0], [0], [0.5], [0.0, 0.0], [0.0, 2.5], [2.5, 0.0], [0, 0, 0], [-0.0, 0.0, 1.0]):
+        item('TCOORD', {'trt': trt(l), 'w': 'offsets', 'l': l})
+    for l in ([0], [1], [0, 0], [0, 7], [7, 0]):
+        item('TCOORD', {'trt': trt(l), 'w': 'samples', 'l': l})
+    for l in ([[1000, 1, 1, 0, 0, 0, 0, 0, 0]], [[2000, 1, 1, 0, 0, 0, 0, 1, 0]],
+              [[1000, 1, 1, 0, 0, 0, 0, 0, 0], [1000, 1, 1, 0, 0, 0, 0, 0, 0]]):
+        item('TCOORD', {'trt': trt(l), 'w': 'datetimes', 'l': l})
+    for num, isf in ((0, False), (0.0, True), (-0.0, True), (5e-324, True)):
+        item('NUM', {'num': num, 'isf': isf, 'unit': g_code(rng), 'qual': None})
+    item('TEXT', {'s': ''})
+    item('CONTAINER', {'cont': False, 'tmpl': None})
+    item('IMAGE', {'cls': g_uid(rng), 'inst': g_uid(rng), 'frames': 1, 'segs': None})
+    item('IMAGE', {'cls': g_uid(rng), 'inst': g_uid(rng), 'frames': None, 'segs': [1]})
+    item('WAVEFORM', {'cls': g_uid(rng), 'inst': g_uid(rng), 'ch': None})
+    item('DATE', {'d': [1000, 1, 1]})
+    item('TIME', {'d': [0, 0, 0, 0]})
+    item('DATETIME', {'d': [1000, 1, 1, 0, 0, 0, 0, 1, 0]})
+    item('SCOORD', {'gt': 'POINT', 'pts': [[0.0, 0.0]], 'poi': None, 'fid': None})
+    item('SCOORD', {'gt': 'POLYLINE', 'pts': [[0.0, 0.0], [0.0, -0.0], [0.0, 0.0]], 'poi': None, 'fid': None})
+    item('SCOORD3D', {'gt': 'POINT', 'pts': [[0.0, 0.0, 0.0]], 'for': g_uid(rng), 'fid': None})
+    item('SCOORD3D', {'gt': 'POLYGON', 'pts': [[0.0, 0.0, 0.0]] * 3, 'for': g_uid(rng), 'fid': None})
+    return out
+
+
+# ---- closed 3D contours with degenerate stretches ----------------------------------------------------------------
+BASES3 = [([1, 0, 0], [0, 1, 0]), ([1, 0, 0], [0, 0, 1]), ([0, 1, 0], [0, 0, 1]), ([1, 1, 0], [0, 1, 1]),
+          ([2, -1, 3], [0, 1, 1]), ([1, 2, 2], [-2, 1, 0])]
+POLY_MODES = ['colstart_off', 'repstart_off', 'colstart_plane', 'rotated_off', 'colend_off', 'collinear_all',
+              'identical_all', 'off_at']
+
+
+def _cross3(u, v):
+    return [u[1] * v[2] - u[2] * v[1], u[2] * v[0] - u[0] * v[2], u[0] * v[1] - u[1] * v[0]]
+
+
+def g_poly3(rng, n, mode, k=None, close=True):
+    """n rows (the last repeats the first when `close`): vertices p0 + a*u + b*v + c*w of a rational plane (w = u x v),
+    dyadic coordinates; the out-of-plane offsets c are 0 or >= 1/2 in size, in-plane offsets >= 1/2 apart.
+    colstart_*: the first three vertices lie on one line (a vertex in the middle of the first edge);
+    repstart_off: ... or repeat each other; rotated_off / colend_off: that stretch elsewhere in the contour;
+    *_off: one of the other vertices is lifted out of the plane; off_at: general contour, vertex k lifted."""
+    m = n - 1 if close else n
+    p0 = [_q8(rng, -400, 400) for _ in range(3)]
+    u, v = rng.choice(BASES3)
+    w = _cross3(u, v)
+    step = lambda: rng.choice([1, 2, 3, 4, 8]) / rng.choice([1, 1, 2])
+    inplane = lambda: (rng.randint(-16, 16) / rng.choice([1, 2]), rng.choice([-1, 1]) * rng.randint(1, 16) / rng.choice([1, 2]))
+    lift = rng.choice([1, -1, 2, -3, 0.5])
+    a1 = step()
+    a2 = a1 + step()
+    cs = [0] * m
+    if mode == 'collinear_all':
+        ab = [(rng.randint(-16, 16) / 2, 0) for _ in range(m)]
+    elif mode == 'identical_all':
+        ab = [(0, 0)] * m
+    elif mode == 'off_at':
+        ab = [inplane() for _ in range(m)]
+        if m:
+            cs[(k if k is not None else rng.randrange(m)) % m] = lift
+    else:
+        pre = [(0, 0), (a1, 0), (a2, 0)]
+        if mode == 'repstart_off' or (mode in ('rotated_off', 'colend_off') and rng.random() < 0.3):
+            pre = rng.choice([[(0, 0), (0, 0), (a2, 0)], [(0, 0), (a1, 0), (a1, 0)], [(0, 0), (0, 0), (0, 0)]])
+        ab = (pre + [inplane() for _ in range(max(0, m - 3))])[:m]
+        if mode != 'colstart_plane' and m > 4:
+            cs[rng.randrange(3, m)] = lift
+    rows = [[float(p0[i] + a * u[i] + b * v[i] + c * w[i]) for i in range(3)] for (a, b), c in zip(ab, cs)]
+    if mode == 'rotated_off' and m:
+        r = rng.randrange(1, m) if m > 1 else 0
+        rows = rows[r:] + rows[:r]
+    if mode == 'colend_off':
+        rows = rows[::-1]
+    if close and rows:
+        rows.append(list(rows[0]))
+    return rows
+
+
+def g_coplanar(rng):
+    """a point set for are_points_coplanar itself: 0-9 points, not closed, possibly permuted"""
+    mode = rng.choice(POLY_MODES + ['generic', 'plane', 'dim2'])
+    n = rng.choice([0, 2, 3, 4, 5, 6, 6, 7, 7, 9])
+    if mode == 'generic':
+        pts = [[float(rng.randint(-50, 50)) for _ in range(3)] for _ in range(n)]
+    elif mode == 'plane':
+        pts = g_plane_pts(rng, n)
+    elif mode == 'dim2':
+        pts = [[_q8(rng), _q8(rng)] for _ in range(max(1, n))]
+    else:
+        pts = g_poly3(rng, n, mode, close=rng.random() < 0.3 and n >= 2)
+    if rng.random() < 0.3:
+        rng.shuffle(pts)
+    return {'kind': 'coplanar', 'pts': pts, 'mode': mode}
+
+
+# ---- histories of reads on one SCOORD / SCOORD3D item ---------------------------------------------------------------
+def g_history(rng):
+    dim = rng.choice([2, 2, 3])
+    if dim == 2:
+        gt = rng.choice(list(G2))
+        pts = g_pts2(rng, gt)
+    else:
+        gt = rng.choice(list(G3))
+        pts = g_pts3(rng, gt)
+    n = len(pts) * dim
+    small = lambda: rng.randint(-4000, 4000) / rng.choice([1, 2, 8])
+    ops = []
+    for _ in range(rng.randint(3, 7)):
+        o = rng.choice(['read'] * 4 + ['scribble'] * 5 + ['roundtrip'] * 2 + ['edit', 'edit', 'assign'])
+        if o == 'scribble':
+            ops.append([o, rng.choice(['last', 'last', 'last', 'first', 'input', 'source']),
+                        rng.choice(['add', 'mul', 'zero', 'round', 'rev', 'fill']), rng.choice([1000.0, -500.0, 2.0, 0.5])])
+        elif o == 'edit':
+            ops.append([o, rng.choice([0, 1, -1, n - 1, -n, n, -n - 1, rng.randint(-n, n - 1)]), small()])
+        elif o == 'assign':
+            cnt = rng.choice([n, n, n + dim, max(dim, n - dim), n + 1 if n + 1 >= 3 else n])
+            n = max(cnt, 2)
+            ops.append([o, [small() for _ in range(n)]])
+        else:
+            ops.append([o])
+    ops.append(['read'])
+    return {'kind': 'history', 'dim': dim, 'gt': gt, 'pts': pts, 'src': rng.choice(['ctor', 'ctor', 'plain', 'bytes', 'seq']),
+            'ops': ops}
+
 
 def gen_cases(rng, tier):
     n = {'quick': 1, 'thorough': 12, 'search': 5}[tier]
@@ -606,6 +761,30 @@ def gen_cases(rng, tier):
     for _ in range(12 * n):
         d = rng.choice([14, 15, 16, 17, 18, 20])
         cases.append({'kind': 'num_int', 'z': rng.choice([1, -1]) * rng.randint(10**(d - 1), 10**d - 1)})
+    # --- new dimensions ---
+    for t in VTS:                 # every (parser class, value type) pair, in both forms: the dataset of t given to
+        for to in VTS:            # the class of `to`, and the dataset of t relabelled as `to` given to the class of t
+            if to != t:
+                for op in ('wrong_class', 'vt_other'):
+                    cases.append({'kind': 'malformed', 'tree': g_tree(rng, 0, 0, False, False, [t]), 'path': [],
+                                  'op': op, 'to': to, 'r': rng.randint(0, 10**6)})
+    for _ in range(n):
+        cases += g_falsy(rng)
+    for mode in POLY_MODES:       # closed contours with collinear / repeated stretches
+        for cnt in (6, 7, 9):
+            for _ in range(n):
+                cases.append({'kind': 'scoord3d', 'gt': 'POLYGON', 'pts': g_poly3(rng, cnt, mode), 'mode': mode})
+    for k in range(6):            # the lifted vertex at every position (0 = the closing vertex)
+        cases.append({'kind': 'scoord3d', 'gt': 'POLYGON', 'pts': g_poly3(rng, 7, 'off_at', k), 'mode': 'off_at'})
+    for mode in ('colstart_off', 'repstart_off', 'off_at', 'collinear_all'):
+        for _ in range(n):        # the same families for the other graphic types
+            cases.append({'kind': 'scoord3d', 'gt': 'ELLIPSE', 'pts': g_poly3(rng, 4, mode, close=False), 'mode': mode})
+            cases.append({'kind': 'scoord3d', 'gt': rng.choice(['POLYLINE', 'MULTIPOINT', 'ELLIPSOID']),
+                          'pts': g_poly3(rng, 6, mode, close=False), 'mode': mode})
+    for _ in range(40 * n):
+        cases.append(g_coplanar(rng))
+    for _ in range(60 * n):
+        cases.append(g_history(rng))
     return cases
 
 
@@ -909,7 +1088,7 @@ def obs_value(it):
         if 'ReferencedSamplePositions' in it:
             r = ['samples', [x if isinstance(x, int) else repr(x) for x in val]]
         elif 'ReferencedTimeOffsets' in it:
-            r = ['offsets', [_fr(x) for x in val]]
+            r = ['offsets', [_fr(x) if isinstance(x, (int, float)) else 'not-a-number: ' + repr(x) for x in val]]
         else:
             r = ['datetimes', [_dt_fields(x) if isinstance(x, dtm.datetime) else ['not-a-datetime', repr(x)]
                                for x in val]]
@@ -990,12 +1169,12 @@ def mutate(c, ds):
         del inner[kw]
         info['kw'] = e.keyword + '/' + kw
     elif op == 'vt_other':
-        node.ValueType = r.choice([t for t in VTS if t != spec['t']])
+        node.ValueType = c.get('to') or r.choice([t for t in VTS if t != spec['t']])
         info['to'] = node.ValueType
     elif op == 'vt_unknown':
         node.ValueType = r.choice(['FOO', 'code', 'TABLE', 'NUMERIC'])
     elif op == 'wrong_class':
-        info['cls'] = CLASS[r.choice([t for t in VTS if t != c['tree']['t']])]
+        info['cls'] = CLASS[c.get('to') or r.choice([t for t in VTS if t != c['tree']['t']])]
     elif op == 'rel_del':
         if 'RelationshipType' in node:
             del node['RelationshipType']
@@ -1045,7 +1224,7 @@ def run_impl(c):
     import numpy as np
     sr, vtm = _hd()
     k = c['kind']
-    if k == 'tree':
+    if k in ('tree', 'falsy'):
         def f():
             return build(c['tree'])
         it = catch(f)
@@ -1100,6 +1279,12 @@ def run_impl(c):
         return [st, ob]
     if k == 'seqops':
         return catch(_seqops_impl, c)
+    if k == 'history':
+        return catch(_history_impl, c)
+    if k == 'coplanar':
+        from highdicom.spatial import are_points_coplanar
+        d = len(c['pts'][0]) if c['pts'] else 3
+        return catch(lambda: bool(are_points_coplanar(_lay(np.array(c['pts'], dtype=float).reshape(len(c['pts']), d)))))
     if k == 'num_int':
         def f():
             z = c['z']
@@ -1157,6 +1342,93 @@ def _seqops_impl(c):
             [catch(lambda: [obs_item(i) for i in s.find(_cc(sr, n))]) for n in c['names']],
             catch(lambda: [obs_item(i) for i in s.get_nodes()]),
             [[catch(lambda: int(s.index(build(p)))), build(p) in s] for p in c['probes']]]
+
+
+def _scribble(a, how, k):
+    """what a caller may do to an array it owns: change it in place"""
+    import numpy as np
+    if how == 'add':
+        a += k
+    elif how == 'mul':
+        a *= k
+    elif how == 'zero':
+        a[:] = 0
+    elif how == 'round':
+        np.round(a / 3, out=a)
+    elif how == 'rev':
+        a[:] = a[::-1].copy()
+    else:
+        a.fill(k)
+
+
+def _history_impl(c):
+    import numpy as np
+    sr, vtm = _hd()
+    dim = c['dim']
+    arr = _lay(np.array(c['pts'], dtype=float))
+    name = _cc(sr, ['1', '99X', 'n', None])
+    if dim == 2:
+        it = sr.ScoordContentItem(name, c['gt'], arr, relationship_type='CONTAINS')
+    else:
+        it = sr.Scoord3DContentItem(name, c['gt'], arr, '1.2.3', relationship_type='CONTAINS')
+    cls = type(it)
+    src = None
+    if c['src'] != 'ctor':
+        src = via_bytes(it) if c['src'] == 'bytes' else plain(it)
+        it = vtm.ContentSequence.from_sequence([src])[0] if c['src'] == 'seq' else cls.from_dataset(src)
+        assert type(it) is cls, type(it)
+    held, obs = [], []
+
+    def read(x):
+        v = x.value
+        assert v.ndim == 2 and v.shape[1] == dim, v.shape
+        return v
+    for op in c['ops']:
+        o = op[0]
+        if o == 'read':
+            def f():
+                v = read(it)
+                held.append(v)
+                return _rows(v)
+            obs.append(catch(f))
+        elif o == 'scribble':
+            tgt = op[1]
+            if tgt in ('last', 'first'):
+                if not held:
+                    r = catch(read, it)            # an unobserved read
+                    if isinstance(r, Err):
+                        continue
+                    held.append(r)
+                _scribble(held[-1] if tgt == 'last' else held[0], op[2], op[3])
+            elif tgt == 'source' and src is not None:
+                src.GraphicData[0] = 12345.0
+                src.GraphicData[-1] = -1.0
+            else:
+                _scribble(arr, op[2], op[3])
+        elif o == 'edit':
+            obs.append(catch(lambda: it.GraphicData.__setitem__(op[1], op[2]) or 'ok'))
+        elif o == 'assign':
+            it.GraphicData = list(op[1])
+        elif o == 'roundtrip':
+            def f():
+                return cls.from_dataset(via_bytes(it))
+            back = catch(f)
+            if isinstance(back, Err):
+                obs += [back, back]
+                continue
+
+            def g():
+                return read(back)
+            v = catch(g)
+            obs.append(v if isinstance(v, Err) else _rows(v))
+            if not isinstance(v, Err):
+                v += 1000.0
+                v[:] = 0
+            w = catch(g)
+            obs.append(w if isinstance(w, Err) else _rows(w))
+        else:
+            raise RuntimeError(o)
+    return [obs, [_fr(x) for x in it.GraphicData]]
 
 
 def _code_ds(c):
@@ -1248,8 +1520,21 @@ def q_item(n):
 
 def coq_term(c):
     k = c['kind']
-    if k == 'tree':
+    if k in ('tree', 'falsy'):
         return f'(run_tree {q_item(c["tree"])})'
+    if k == 'coplanar':
+        return f'(run_coplanar {_qrows(c["pts"])})'
+    if k == 'history':
+        ops = []
+        for op in c['ops']:
+            o = op[0]
+            if o == 'edit':
+                ops.append(f'HEdit {zlit(op[1])} {qlit(F(float(op[2])))}')
+            elif o == 'assign':
+                ops.append('HAssign [' + '; '.join(qlit(F(float(x))) for x in op[1]) + ']')
+            else:
+                ops.append({'read': 'HRead', 'scribble': 'HScribble', 'roundtrip': 'HRoundTrip'}[o])
+        return f'(run_hist {c["dim"]} {_qrows(c["pts"])} [' + '; '.join(ops) + '])'
     if k == 'code':
         return f'(run_code {q_code(c["code"])})'
     if k == 'code_from':
@@ -1390,9 +1675,83 @@ def _rank_coplanar(pts):
     return rank <= 2
 
 
+def _plane_dev(pts):
+    """largest distance from the least-squares plane, from the eigenvectors of the 3 x 3 scatter matrix (not the
+    code's SVD of the point matrix); only used to set aside near-tolerance inputs"""
+    import numpy as np
+    a = np.array(pts, dtype=float)
+    a = a - a.mean(axis=0)
+    _, vec = np.linalg.eigh(a.T @ a)
+    return float(np.abs(a @ vec[:, 0]).max())
+
+
+def _coplanar_verdict(pts):
+    """True / False by the exact rank; None when the float test of the code cannot be held to it (tolerance 1e-5)"""
+    if len(pts) < 4:
+        return True
+    exact = _rank_coplanar(pts)
+    dev = _plane_dev(pts)
+    if (exact and dev > 1e-7) or (not exact and dev < 1e-3):
+        return None
+    return exact
+
+
+def _history_reference(c):
+    """the property on a history: every read shows the GraphicData of that moment, which only edits and assignments
+    of GraphicData change - never what callers do to arrays they were given or gave"""
+    dim = c['dim']
+    state = [F(x) for r in c['pts'] for x in r]
+
+    def rows():
+        if len(state) % dim:
+            return Err('ValueError')
+        return [state[i:i + dim] for i in range(0, len(state), dim)]
+    obs = []
+    for op in c['ops']:
+        o = op[0]
+        if o == 'read':
+            obs.append(rows())
+        elif o == 'roundtrip':
+            obs += [rows(), rows()]
+        elif o == 'edit':
+            if -len(state) <= op[1] < len(state):
+                state[op[1]] = F(op[2])
+                obs.append('ok')
+            else:
+                obs.append(Err('IndexError'))
+        elif o == 'assign':
+            state = [F(x) for x in op[1]]
+    return [obs, state]
+
+
 def oracle(c, out):
     k = c['kind']
-    if k == 'tree':
+    if k == 'history':
+        if isinstance(out, Err):
+            return f'history on an admissible item raised {out}'
+        want = _history_reference(c)
+        if out == want:
+            return None
+        labels = []
+        for op in c['ops']:
+            labels += {'read': ['value'], 'roundtrip': ['value of the serialised+parsed copy', 'the same after the caller '
+                       'changed the array it got'], 'edit': [f'GraphicData[{op[1]}] = {op[2]}' if len(op) > 2 else '']}.get(op[0], [])
+        for i, (g, w) in enumerate(zip(out[0], want[0])):
+            if g != w:
+                before = [o[0] + ('(' + o[1] + ')' if o[0] == 'scribble' else '') for o in c['ops']]
+                return (f'{CLASS["SCOORD" if c["dim"] == 2 else "SCOORD3D"]} ({c["src"]}), calls {before}: observation {i} '
+                        f'({labels[i] if i < len(labels) else "?"}) is {_short(g)}, GraphicData holds {_short(w)} - '
+                        f'the item does not report its own coordinates')
+        return f'history: {_first_diff(out, want, "obs")}'
+    if k == 'coplanar':
+        if any(len(r) != 3 for r in c['pts']):
+            return None if out == Err('ValueError') else f'are_points_coplanar on n x {len(c["pts"][0])} input: {out}'
+        want = _coplanar_verdict(c['pts'])
+        if want is None:
+            return None
+        return None if out is want else (f'are_points_coplanar({c["pts"]}) = {out}; the points '
+                                          f'{"lie" if want else "do not lie"} in one plane')
+    if k in ('tree', 'falsy'):
         bad = _tree_invalid(c['tree'])
         if bad:
             return None if isinstance(out, Err) else f'inadmissible tree accepted ({bad})'
@@ -1461,7 +1820,9 @@ def oracle(c, out):
         if want and gt == 'POLYGON':
             want = c['pts'][0] == c['pts'][-1]
         if want and gt in ('POLYGON', 'ELLIPSE'):
-            want = _rank_coplanar(c['pts'])
+            want = _coplanar_verdict(c['pts'])
+            if want is None:
+                return None
         got = out is True
         if not got and out != Err('ValueError'):
             return f'unexpected outcome {out}'
@@ -1549,6 +1910,10 @@ def oracle(c, out):
     if k == 'subclass':
         parent, asserts = sub_table()[c['sub']]
         t, dl = c['tree']['t'], c['del']
+        if dl == 'ConceptNameCodeSequence' and CLASS[t] != parent:
+            # two faults (value type of another class AND no concept name): either refusal is a correct one
+            return None if out in (Err('AttributeError'), Err('ValueError')) else \
+                f'{c["sub"]}.from_dataset of a {t} dataset without {dl}: {out}'
         if dl in ('ValueType', 'ConceptNameCodeSequence'):
             return None if out == Err('AttributeError') else f'{c["sub"]}.from_dataset without {dl}: {out}'
         want = 'ok'
@@ -1581,6 +1946,12 @@ def oracle(c, out):
             return f'index / in gave {probes}, expected {wprobes}'
         return None
     return f'unknown kind {k}'
+
+
+def _short(x):
+    if isinstance(x, list):
+        return '[' + ', '.join(_short(y) for y in x) + ']'
+    return str(float(x)) if isinstance(x, F) else repr(x)
 
 
 def _item_verdict(root, sr_, t):
@@ -1684,6 +2055,14 @@ def shrink(c):
                 yield dict(c, tree=dict(t, kids=t['kids'][:i] + [k2] + t['kids'][i + 1:]))
     if c['kind'] in ('scoord', 'scoord3d') and len(c['pts']) > 1:
         yield dict(c, pts=c['pts'][:-1])
+    if c['kind'] == 'coplanar':
+        for i in range(len(c['pts'])):
+            yield dict(c, pts=c['pts'][:i] + c['pts'][i + 1:])
+    if c['kind'] == 'history':
+        for i in range(len(c['ops'])):
+            yield dict(c, ops=c['ops'][:i] + c['ops'][i + 1:])
+        if c['src'] != 'ctor':
+            yield dict(c, src='ctor')
 
 
 # --------------------------------------------------------------------------
